@@ -285,6 +285,13 @@ func (s *Synchronizer) advanceView(syncInfo hotstuff.SyncInfo) {
 	}
 
 	newView := s.state.NextView()
+	// the certificate is for a view we have not reached yet: catch up to the view after it at once,
+	// signalling every view we pass through; otherwise a replica that fell behind stays behind for
+	// as long as the others make progress.
+	for newView <= view {
+		s.eventLoop.AddEvent(hotstuff.ViewChangeEvent{View: newView, Timeout: timeout})
+		newView = s.state.NextView()
+	}
 
 	s.lastTimeout = nil
 	s.duration.ViewStarted()
